@@ -266,6 +266,55 @@ def quadrature_histories(repo, sfi):
     return problems, n
 
 
+def orientation_histories(repo, qfi, sfi):
+    """Two Cylinder.quadrature calls in ONE interpreter (module-level tables and caches persist) for two cylinders whose axes differ
+    in the sign of one component, in every combination of components (the axes of such a pair share e_z x axis, or its length, or
+    the angle to z): the points of the second cylinder must be those a fresh interpreter hands out.  The reference rule is replaced
+    by two symbolic points.  -> (bad histories, number of histories)"""
+    from sa.interp import RaiseSignal
+
+    def request(wi, wm, signs, tag):
+        comps = [sym_scalar(wi, wm, n_, Unit(), v_) for n_, v_ in (('ax', F(2, 7)), ('ay', F(3, 7)), ('az', F(6, 7)))]  # (no two components of equal size: no accidental hit)
+        a = SVar(T.as_vectors(*[c.term * s_ for c, s_ in zip(comps, signs, strict=True)]), Unit(), 'vector3')
+        a.members['dims'] = []
+        wi.track(a)
+        base = make_param(wi, 'base', P(kind='vector', dim='L', dtype='vector3', unit=Unit.named('m')))
+        base.members['dims'] = []
+        cyl = SObj(repo.cls(MOD, 'Cylinder'), {'symmetry_line': a, 'center_of_base': base, 'radius': sym_scalar(wi, wm, 'radius', Unit.named('m'), F(1), positive=True),
+                                                'height': sym_scalar(wi, wm, 'height', Unit.named('m'), F(2), positive=True)})
+        q = {k: wm.array(wi, [sym_scalar(wi, wm, f'q{k}{i}', Unit(), F(1, 3 + i)) for i in range(2)], 'quad') for k in ('x', 'y', 'z', 'weights')}
+        wi.stubs[sfi.fq] = lambda interp, args, kwargs, bound, q=q: dict(q)
+        try:
+            r = wi.call_function(qfi, ['cheap'], {}, bound=cyl)
+        except RaiseSignal as r_:
+            return ('raise', r_.exc_type)
+        if not (isinstance(r, tuple) and len(r) == 2):
+            return ('return', repr(r)[:80])
+        pts, wts = items_of(r[0]), items_of(r[1])
+        if pts is None or wts is None:
+            return ('return', 'no arrays')
+        return ('return', tuple(T.show(p_.term) if p_.term is not None else None for p_ in pts), tuple(T.show(w_.term) if w_.term is not None else None for w_ in wts))
+    variants = [(1, 1, 1), (1, 1, -1), (-1, 1, 1), (-1, 1, -1)]
+    bad = []
+    n = 0
+    for first in variants:
+        for second in variants:
+            if first == second:
+                continue
+            T.reset()
+            wm = WitnessModel()
+            fresh = request(WitnessInterp(repo, wm), wm, second, '')
+            wm2 = WitnessModel()
+            wi2 = WitnessInterp(repo, wm2)
+            request(wi2, wm2, first, '')
+            wi2.end_of_call()
+            got = request(wi2, wm2, second, '')
+            n += 1
+            if got != fresh:
+                bad.append({'history': [f'axis (2/7, 3/7, 6/7) * {first}', f'axis (2/7, 3/7, 6/7) * {second}'], 'fresh': str(fresh)[:160], 'after_the_first': str(got)[:160]})
+    return bad, n
+
+
 def fold_rule(repo, sfi, kind, ratio):
     """Problems of the reference rule of the unit cylinder (radius 1, z in [-1, 1]) selected for `kind`."""
     import numpy as np
@@ -621,6 +670,10 @@ def run(tier: str) -> Run:
     qfi = repo.func(MOD, 'Cylinder.quadrature')
     if select_fi.fq in qh_problems:
         qh_problems[qfi.fq] = qh_problems[select_fi.fq]
+    oh_bad, oh_n = orientation_histories(repo, qfi, select_fi)
+    if oh_bad:
+        qh_problems.setdefault(qfi.fq, []).extend(oh_bad)
+    qh_n += oh_n
     eff6 = history_free(repo, [qfi, select_fi], r6, histories=(qh_problems, qh_n))
     history_free(repo, [repo.func(bmod, 'compute_transmission_map')], r6, eff=eff6, decided_elsewhere=[qfi, select_fi])
     return run
